@@ -359,8 +359,9 @@ func (eng *Engine) buildVCq(fn *ssa.Function, ct *Contract, qf int) (vc *VC, err
 						o := f.obligeAt("true", "frame", "unknown-callee-effects", nil, "false", fn.Pos())
 						o.Src = "the body calls code with unknown effects (interface method or function value without contract) but the modifies clause does not say '*'"
 					}
-					for k, fm := range f.frameConds(ct, f.specEnv(f.entry), f.entry, r.st, union(eff, actual)) {
-						f.obligeAt(r.R, "frame", fmt.Sprintf("objects.%d%s", k+1, tag), nil, fm, r.pos)
+					for _, fm := range f.frameConds(ct, f.specEnv(f.entry), f.entry, r.st, union(eff, actual)) {
+						o := f.obligeAt(r.R, "frame", fm.heap+tag, nil, fm.formula, r.pos)
+						o.Src = "only the objects listed in the modifies clause (or allocated during the call) change in heap " + fm.heap
 					}
 				}
 			}
